@@ -9,6 +9,8 @@ mod c07;
 mod corpus;
 mod dump;
 mod c02;
+mod c05;
+mod rulegen;
 
 use std::path::PathBuf;
 
@@ -42,6 +44,8 @@ fn main() {
     "c07" => c07::run(&o),
     "c02" => c02::run_c02(&o),
     "c03" => c02::run_c03(&o),
+    "c05" => c05::run_stream(&o, "c05"),
+    "c04" => c05::run_stream(&o, "c04"),
     s => { eprintln!("unknown stream {s}"); std::process::exit(2); }
   }
 }
